@@ -2244,3 +2244,14 @@ M("C07-vertical-tab-escape-wrong", "C07", F_PP, "  case 'v':\n    return '\\v';\
 MUTANTS.append({"id": "C17-chdir-inside-the-option-loop", "prop": "C17", "expect": "R17.9|main|chdir|after-every-make_absolute", "benign": False, "edits": [
     (F_IG, "      source_file_directory.make_absolute();\n      break;\n", "      source_file_directory.make_absolute();\n      if (!source_file_directory.chdir()) {\n        cerr << \"Could not change directory to \" << source_file_directory << \"\\n\";\n        exit(1);\n      }\n      break;\n"),
     (F_IG, "  // If requested, change directory to the source-file directory.\n  if (source_file_directory != \"\") {\n    if (!source_file_directory.chdir()) {\n      cerr << \"Could not change directory to \" << source_file_directory << \"\\n\";\n      exit(1);\n    }\n  }\n", "")]})
+
+# ---- R15.29 (S9-C15: a manifest the push_macro stack may hold is freed)
+M("C15-redefined-macro-freed", "C15", F_PP,
+  "      result.first->second = manifest;\n    }\n  }\n}\n", "      delete other;\n      result.first->second = manifest;\n    }\n  }\n}\n",
+  expect="R15.29|CPPPreprocessor::handle_define_directive|")
+
+# ---- R05.12 (S9-C05: every reference stripped from the signature key)
+F_TM = "src/interrogate/typeManager.cxx"
+M("C05-signature-key-strips-every-reference", "C05", F_TM,
+  "    if (is_const_ref_to_anything(ptype)) {\n      ptype = unwrap_const_reference(ptype);\n    }\n", "    ptype = unwrap_const_reference(ptype);\n",
+  expect="R05.12|get_function_signature|")
